@@ -176,9 +176,23 @@ def canon_array(a):
             'data': [[int(v) for v in row] for row in a]}
 
 
-def load_bytes(data, want_fcsdata=True, via='name'):
-    """Load through FlowCal.io.FCSFile (and FCSData); canonical JSON-able result.  via='fileobj': an open file object is passed instead of the name."""
-    path = write_tmp(data)
+def load_bytes(data, want_fcsdata=True, via='name', prelude=None):
+    """Load through FlowCal.io.FCSFile (and FCSData); canonical JSON-able result.  via='fileobj': an open file object is passed instead of the name.
+    prelude: bytes of another file of the same length that sat at the same path (same time stamps) and was loaded just before."""
+    if prelude is not None and len(prelude) == len(data):
+        path = write_tmp(prelude)
+        try:
+            with warnings.catch_warnings():
+                warnings.simplefilter('ignore')
+                FlowCal.io.FCSFile(path)
+        except Exception:
+            pass
+        st = os.stat(path)
+        with open(path, 'wb') as fh:
+            fh.write(data)
+        os.utime(path, ns=(st.st_atime_ns, st.st_mtime_ns))
+    else:
+        path = write_tmp(data)
     fobj = None
     try:
         with warnings.catch_warnings(record=True) as w:
